@@ -3,7 +3,9 @@
 SUT: PdoMap.on_message/subscribe/transmit/remote_request/wait_for_reception,
 PdoBase.__getitem__, PdoMap.__getitem__.  A producing LocalNode and a consuming
 RemoteNode (its TPDO maps are what the master receives) on two networks of one
-simulated bus, 1..4 maps each, configured directly.
+simulated bus, 1..4 maps each, configured directly, from the dictionary or through save(); a third node
+takes the configuration from the device and reads every frame through its own mapping.  The sides may take
+turns (a map that has received is written and transmitted by its own node).
 """
 import threading
 import time
@@ -18,24 +20,56 @@ from harness.simbus import Frame, Hub
 
 PROPERTY = "C15"
 LEVEL = "exploration"
-RULE = ("case = 1..4 PDO maps (layouts as in C05: any integer type / REAL / BOOLEAN / sub-byte fields at any "
-        "offset), COB-IDs distinct or colliding, per map enabled / rtr_allowed flags, and a history of ops: "
+RULE = ("case = 1..4 PDO maps (layouts as in C05: 1..8 objects, any integer type / REAL / BOOLEAN / sub-byte fields at any "
+        "offset, plain variables or record members mapped by numeric sub-index 1..254), COB-IDs distinct or colliding "
+        "(11-bit up to 0x7FF, 29-bit from 0x800), per map enabled / rtr_allowed flags, the shared configuration applied "
+        "directly (+ subscribe()), taken from the dictionary (read(from_od=True)), written to the device with save() after "
+        "or INSTEAD of subscribe() and taken from the device by a third node with read(); and a history of ops: "
         "write a typed value on the producer (by position, index, name, through the node-level lookup), "
         "transmit, deliver a raw frame with a generated id, reconfigure a consumer map to another COB-ID "
-        "and re-subscribe, add a callback, remote_request (from the consumer or from a third node that took "
+        "and re-subscribe (subscribe() or save()), reconfigure the producer's COB-ID, add a callback, remote_request (from "
+        "the consumer or from a third node that took "
         "the configuration from the device after the consumer's save()), wait_for_reception with a second thread "
-        "delivering (or nothing delivered), callbacks that block for 5..50 ms, and re-mapping of a PDO (clear() + the same objects in another order "
-        "on every node) between variable lookups through every route. Oracle: per-map reception model (data, timestamp, callback "
-        "counts) + the C05 bit-field model for values; transmit = exactly (COB-ID, current data); RTR frame "
-        "iff enabled and RTR allowed. Non-trivial = >= 2 maps and a reception with a non-byte-aligned layout "
+        "delivering every 2 ms (or nothing delivered), wait_for_reception of 1..3 reader threads that are all parked when exactly "
+        "ONE frame arrives (on a map that never received before, or that did), callbacks that block for 5..50 ms, "
+        "re-mapping of a PDO (clear() + the same objects in another order "
+        "on every node) between variable lookups through every route, and the two sides taking turns: the consumer "
+        "writes variables of a map that has received and transmits it, the third node reads. Oracle: per-map reception "
+        "model (data, timestamp, callback "
+        "counts) + the C05 bit-field model for values, read on the consumer AND on the third node through their own "
+        "mappings; transmit = exactly one data frame (COB-ID with the matching frame format, current data); RTR frame "
+        "iff enabled and RTR allowed; a parked reader returns the frame's timestamp well before its own time-out. "
+        "Non-trivial = >= 2 maps and a reception with a non-byte-aligned layout "
         "or a colliding / reconfigured id; distinct = canonical JSON.")
 ASSUMPTIONS = [
     "in the threaded wait the feeder re-delivers the same frame every 2 ms until the waiter returns, so the "
     "outcome does not depend on when the waiter really starts to wait",
     "wait_for_reception with nothing delivered uses a 20 ms time-out",
+    "single-frame wait: the frame is injected only after all reader threads are seen parked on PdoMap.receive_condition "
+    "(len(Condition._waiters), read-only); if that cannot be observed the op falls back to re-delivery every 2 ms. "
+    "'Woken' = returned within 2 s of the injection with a 4 s time-out, and the verdict must reproduce on a fresh rig",
+    "'a waiting reader' is read as 'every reader that waits': with several reader threads each one must be woken",
+    "a sender does not hear its own frames (simulated bus = python-can default)",
+    "excluded (counted): a write on a consumer map that received its current buffer together with another map of the "
+    "same node (colliding COB-IDs) - the unchanged library lets both maps share one bytearray; and a frame on the "
+    "COB-ID of a map that was subscribed under that id formerly but has been subscribed under another id since "
+    "(whether the former registration survives is not stated)",
 ]
 BUDGET = {"quick": 150, "thorough": 400}
 NODE = 6
+
+
+SINGLE_T = 4.0          # time-out of reader threads that are parked when exactly one frame arrives
+SUBS = [1, 2, 127, 128, 254]
+
+
+def obj_index(m, j):
+    return 0x2000 + 16 * m + j
+
+
+def obj_name(m, j, e):
+    """Name under which the mapped variable is found: a record member is 'record.member'."""
+    return f"m{m}f{j}.x" if e.get("sub") else f"m{m}f{j}"
 
 
 def od_spec(maps):
@@ -49,10 +83,21 @@ def od_spec(maps):
         spec.append({"kind": "array", "index": 0x1A00 + m, "name": f"TPDO {m} map", "members": [
             {"sub": 0, "name": "n", "dt": rc.UNSIGNED8, "default": len(mp["layout"])}] + [
             {"sub": j + 1, "name": f"e{j + 1}", "dt": rc.UNSIGNED32,
-             "default": ((0x2000 + 16 * m + j) << 16) | e["len"]} for j, e in enumerate(mp["layout"])]})
+             "default": (obj_index(m, j) << 16) | (e.get("sub", 0) << 8) | e["len"]}
+            for j, e in enumerate(mp["layout"])]})
         for j, e in enumerate(mp["layout"]):
-            spec.append({"kind": "var", "index": 0x2000 + 16 * m + j, "name": f"m{m}f{j}", "dt": e["dt"], "pdo": True})
+            if e.get("sub"):
+                # member `sub` of a record, mapped by its numeric sub-index (as in C05)
+                spec.append({"kind": "record", "index": obj_index(m, j), "name": f"m{m}f{j}", "members": [
+                    {"sub": 0, "name": "n", "dt": rc.UNSIGNED8},
+                    {"sub": e["sub"], "name": "x", "dt": e["dt"], "pdo": True}]})
+            else:
+                spec.append({"kind": "var", "index": obj_index(m, j), "name": f"m{m}f{j}", "dt": e["dt"], "pdo": True})
     return spec
+
+
+def add_entry(pm, m, j, e):
+    return pm.add_variable(obj_index(m, j), e.get("sub", 0), None if e["len"] == rc.width(e["dt"]) else e["len"])
 
 
 def setup_maps(node, maps, consumer, from_od=False):
@@ -68,32 +113,48 @@ def setup_maps(node, maps, consumer, from_od=False):
         pm.enabled = mp.get("enabled", True)
         pm.rtr_allowed = mp.get("rtr", True)
         for j, e in enumerate(mp["layout"]):
-            full = rc.width(e["dt"])
-            pm.add_variable(0x2000 + 16 * m + j, 0, None if e["len"] == full else e["len"])
+            add_entry(pm, m, j, e)
         if consumer:
             pm.subscribe()
         out.append(pm)
     return out
 
 
-def lookup(node, pm, m, j, via, pos=None):
+def lookup(node, pm, m, j, via, pos=None, e=None):
     """Variable of object j of map m; `pos` is its current position in the mapping (j unless re-mapped)."""
-    index = 0x2000 + 16 * m + j
+    index = obj_index(m, j)
     pos = j if pos is None else pos
     if via == "pos":
         return pm[pos]
     if via == "index":
         return pm[index]
     if via == "name":
-        return pm[f"m{m}f{j}"]
+        return pm[obj_name(m, j, e or {})]
     if via == "node_name":
-        return node.tpdo[f"m{m}f{j}"]
+        return node.tpdo[obj_name(m, j, e or {})]
     return node.tpdo[m + 1][pos]
 
 
+FORMER_ID_EXCLUDED = ("frame on the COB-ID of a map that was subscribed under that id formerly and under another id since "
+                      "(not stated whether the former registration survives)")
+TIMING_ONLY = ("C15/wait/not-woken-in-time",)
+
+
 def run_case(case) -> Outcome:
+    out = _run_case(case)
+    if out.discrepancies and out.discrepancies[0].signature in TIMING_ONLY:
+        # the only evidence is elapsed time: it has to reproduce on a fresh rig
+        out = _run_case(case)
+    return out
+
+
+def _run_case(case) -> Outcome:
     import canopen
     maps = case["maps"]
+    config = case.get("config", "direct")
+    for mp in maps:
+        if not 1 <= len(mp["layout"]) <= 8 or sum(e["len"] for e in mp["layout"]) > 64:
+            raise ValueError("generator error: a mapping has 1..8 objects and at most 64 bits")
     hub = Hub()
     net_p, port_p = hub.attach("producer")
     net_c, port_c = hub.attach("consumer")
@@ -103,13 +164,14 @@ def run_case(case) -> Outcome:
     cons = canopen.RemoteNode(NODE, build_od(spec))
     net_c.add_node(cons)
     pmaps = setup_maps(prod, maps, consumer=False)
-    cmaps = setup_maps(cons, maps, consumer=True, from_od=case.get("config") == "from_od")
+    # config "save": the consumer never calls subscribe() itself - save() below is documented to register the map
+    cmaps = setup_maps(cons, maps, consumer=config != "save", from_od=config == "from_od")
     # a third, passive node with the same configuration on its own network: it hears everything the
     # other two put on the bus (data frames and remote requests) through the library's own listener
     net_m, port_m = hub.attach("monitor")
     mon = canopen.RemoteNode(NODE, build_od(spec))
     net_m.add_node(mon)
-    if case.get("config") == "sdo":
+    if config in ("sdo", "save"):
         # the consumer writes its configuration to the device with save(); the third node takes it
         # from the device with read() - the usual way two masters come to share a configuration
         for cm in cmaps:
@@ -124,6 +186,7 @@ def run_case(case) -> Outcome:
     for prt in (port_p, port_c, port_m):
         prt.via_listener = True
     D = []
+    EX = []
 
     def bad(kind, detail):
         D.append(Discrepancy(f"C15/{kind}", detail))
@@ -139,16 +202,24 @@ def run_case(case) -> Outcome:
             o += e["len"]
         offs.append(lst)
     order = [list(range(len(mp["layout"]))) for mp in maps]      # object ids in mapping order (remap op)
+    p_cob = [mp["cob"] for mp in maps]
     c_cob = [mp["cob"] for mp in maps]
     c_subscribed = [({mp["cob"]} if mp.get("enabled", True) else set()) for mp in maps]
-    c_data = [None] * len(maps)
+    c_last = [(mp["cob"] if mp.get("enabled", True) else None) for mp in maps]   # id of the latest subscription
+    c_data = [None] * len(maps)                # None: content not stated by the property (never received / after save())
     c_ts = [None] * len(maps)
+    c_buf = [None] * len(maps)                 # number of the reception that filled the buffer
+    rx_no = [0]
     m_data = [None] * len(maps)
     m_ts = [None] * len(maps)
     cb_log = []
     cb_expected = []
     callbacks = [[] for _ in maps]
     feats = set()
+    if any(e.get("sub") for mp in maps for e in mp["layout"]):
+        feats.add("members")
+    if config == "save":
+        feats.add("save-subscribes")
 
     def mk_cb(m, k, slow=0):
         def cb(pm):
@@ -158,15 +229,25 @@ def run_case(case) -> Outcome:
                 time.sleep(slow / 1000.0)
         return cb
 
-    def expect_receive(can_id, data, ts):
+    def former_id(m):
+        """Map m sits on an id it was subscribed under earlier, but its latest subscription was for another id."""
+        return c_cob[m] in c_subscribed[m] and c_last[m] != c_cob[m]
+
+    def expect_receive(can_id, data, ts, src=None):
         for m in range(len(maps)):
             if can_id == maps[m]["cob"] and maps[m].get("enabled", True):
                 m_data[m] = bytes(data)
                 m_ts[m] = ts
+        if src == "cons":
+            return                             # a sender does not hear itself
+        rx_no[0] += 1
         for m in range(len(maps)):
             if can_id == c_cob[m] and can_id in c_subscribed[m]:
+                if former_id(m):
+                    EX.append(FORMER_ID_EXCLUDED)
                 c_data[m] = bytes(data)
                 c_ts[m] = ts
+                c_buf[m] = rx_no[0]
                 for k in callbacks[m]:
                     cb_expected.append((m, k, True))
                 if sum(1 for x in range(len(maps)) if c_cob[x] == can_id and can_id in c_subscribed[x]) > 1:
@@ -175,13 +256,15 @@ def run_case(case) -> Outcome:
                     feats.add("bitfield-reception")
 
     def compare(tag):
+        if EX:
+            return
         for m in range(len(maps)):
             got = bytes(cmaps[m].data) if c_data[m] is not None else None
             if c_data[m] is not None and got != c_data[m]:
                 bad("consumer-data", f"{tag}: consumer map {m} (cob {c_cob[m]:#x}) holds {got.hex()} model "
                                      f"{c_data[m].hex()}")
                 return
-            if c_data[m] is None and cmaps[m].timestamp is not None:
+            if c_ts[m] is None and cmaps[m].timestamp is not None:
                 bad("unsubscribed-map-updated", f"{tag}: consumer map {m} (cob {c_cob[m]:#x}) received "
                                                 f"{bytes(cmaps[m].data).hex()} although no frame was for it")
                 return
@@ -195,14 +278,42 @@ def run_case(case) -> Outcome:
                                     f"{bytes(mmaps[m].data).hex()} @ {mmaps[m].timestamp}, model "
                                     f"{m_data[m].hex() if m_data[m] is not None else None} @ {m_ts[m]}")
                 return
-        # per map: every callback once per reception, in registration order (the order in which
-        # different maps that share a COB-ID are served is not part of the property)
+        # per map: every callback once per reception (neither the order in which different maps that share a
+        # COB-ID are served nor the order of one map's callbacks is part of the property)
         for m in range(len(maps)):
-            got_m = [e for e in cb_log if e[0] == m]
-            want_m = [e for e in cb_expected if e[0] == m]
+            got_m = sorted(e for e in cb_log if e[0] == m)
+            want_m = sorted(e for e in cb_expected if e[0] == m)
             if got_m != want_m:
                 bad("callbacks", f"{tag}: callbacks of map {m}: log {got_m[-6:]} model {want_m[-6:]}")
                 return
+
+    def check_values(side, node, nmaps, data, src_m, want, via, tag):
+        """Typed values on a receiving node, through its own mapping and lookup path: every map that holds the
+        frame and has the sender's layout reads what the frame holds."""
+        if D or EX:
+            return
+        F = int.from_bytes(want, "little")
+        src_layout = [maps[src_m]["layout"][x] for x in order[src_m]]
+        for cm in range(len(maps)):
+            if data[cm] is None or data[cm] != want or len(want) != nbytes[cm] or \
+                    [maps[cm]["layout"][x] for x in order[cm]] != src_layout:
+                continue
+            for j, e in enumerate(maps[cm]["layout"]):
+                wantv = c05.field_value(e["dt"], e["len"], F, offs[cm][j])
+                what = (f"{tag}: {side} map {cm} object {j} ({rc.NAMES[e['dt']]} len {e['len']} at bit {offs[cm][j]}"
+                        f"{', member %d' % e['sub'] if e.get('sub') else ''}) via {via}")
+                try:
+                    gotv = lookup(node, nmaps[cm], cm, j, via, order[cm].index(j), e).raw
+                except Exception as ex:
+                    bad(f"{side}-value/raises", f"{what}: {type(ex).__name__}: {ex}")
+                    return
+                if not c05.same(e["dt"], gotv, wantv):
+                    bad(f"{side}-value", f"{what} reads {gotv!r}, the frame {want.hex()} holds {wantv!r}")
+                    return
+
+    def data_frame_ok(new, cob, want):
+        return (len(new) == 1 and new[0].can_id == cob and new[0].data == want and not new[0].remote
+                and new[0].extended == (cob > 0x7FF))
 
     for n, op in enumerate(case["ops"]):
         kind = op["op"]
@@ -212,7 +323,7 @@ def run_case(case) -> Outcome:
             if kind == "write":
                 j = op["j"] % len(maps[m]["layout"])
                 e = maps[m]["layout"][j]
-                var = lookup(prod, pmaps[m], m, j, op.get("via", "pos"), order[m].index(j))
+                var = lookup(prod, pmaps[m], m, j, op.get("via", "pos"), order[m].index(j), e)
                 var.raw = op["v"]
                 mask = (1 << e["len"]) - 1
                 pF[m] = (pF[m] & ~(mask << offs[m][j])) | (c05.enc_bits(e["dt"], e["len"], op["v"]) << offs[m][j])
@@ -224,27 +335,57 @@ def run_case(case) -> Outcome:
                 pmaps[m].transmit()
                 new = port_p.sent[mark:]
                 want = pF[m].to_bytes(nbytes[m], "little")
-                if len(new) != 1 or new[0].can_id != maps[m]["cob"] or new[0].data != want or new[0].remote:
-                    bad("transmit-frame", f"{tag}: sent {new} want {maps[m]['cob']:X}#{want.hex()}")
-                    break
-                expect_receive(maps[m]["cob"], want, new[0].ts)
-                compare(tag)
-                if D:
-                    break
-                # typed values on the consumer side, through its own lookup path
-                for cm in range(len(maps)):
-                    if c_data[cm] is None or c_data[cm] != want or \
-                            [maps[cm]["layout"][x] for x in order[cm]] != [maps[m]["layout"][x] for x in order[m]]:
-                        continue
-                    F = int.from_bytes(want, "little")
-                    for j, e in enumerate(maps[cm]["layout"]):
-                        wantv = c05.field_value(e["dt"], e["len"], F, offs[cm][j])
-                        gotv = lookup(cons, cmaps[cm], cm, j, op.get("via", "pos"), order[cm].index(j)).raw
-                        if not c05.same(e["dt"], gotv, wantv):
-                            bad("consumer-value", f"{tag}: consumer map {cm} field {j} "
-                                                  f"({rc.NAMES[e['dt']]} len {e['len']} at bit {offs[cm][j]}) reads "
-                                                  f"{gotv!r}, producer frame {want.hex()} holds {wantv!r}")
-                            break
+                if not new and not maps[m].get("enabled", True):
+                    # a PDO that is not valid does not exist on the bus (CiA 301): sending nothing is accepted too
+                    feats.add("disabled-not-sent")
+                    compare(tag)
+                elif not data_frame_ok(new, p_cob[m], want):
+                    bad("transmit-frame", f"{tag}: sent {new} want {p_cob[m]:X}#{want.hex()}"
+                                          f"{'x' if p_cob[m] > 0x7FF else ''}")
+                else:
+                    expect_receive(p_cob[m], want, new[0].ts)
+                    compare(tag)
+                    # typed values on the consumer side and on the third node, through their own lookup paths
+                    check_values("consumer", cons, cmaps, c_data, m, want, op.get("via", "pos"), tag)
+                    check_values("monitor", mon, mmaps, m_data, m, want, op.get("via", "pos"), tag)
+            elif kind == "cwrite":
+                # the two sides take turns: the consuming node writes a variable of its own map object
+                j = op["j"] % len(maps[m]["layout"])
+                e = maps[m]["layout"][j]
+                if True:
+                    # maps sharing a COB-ID each hold their own copy of a received frame (F32): a write on
+                    # one of them leaves the other maps' values alone - compare() below looks at all maps
+                    if c_buf[m] is not None and any(c_buf[x] == c_buf[m] for x in range(len(maps)) if x != m):
+                        feats.add("cwrite-on-colliding-map")
+                    base = c_data[m] if c_data[m] is not None else bytes(cmaps[m].data)
+                    if len(base) != nbytes[m]:
+                        # the buffer holds a frame of another map's layout (colliding ids, different mappings):
+                        # not a frame of this mapping, nothing to write into
+                        feats.add("cwrite-skipped")
+                    else:
+                        var = lookup(cons, cmaps[m], m, j, op.get("via", "pos"), order[m].index(j), e)
+                        var.raw = op["v"]
+                        mask = (1 << e["len"]) - 1
+                        F = (int.from_bytes(base, "little") & ~(mask << offs[m][j])) | \
+                            (c05.enc_bits(e["dt"], e["len"], op["v"]) << offs[m][j])
+                        c_data[m] = F.to_bytes(nbytes[m], "little")
+                        feats.add("turn-taking" if c_ts[m] is not None else "consumer-writes")
+                        compare(tag)
+            elif kind == "ctransmit":
+                cur = c_data[m] if c_data[m] is not None else bytes(cmaps[m].data)
+                mark = len(port_c.sent)
+                cmaps[m].transmit()
+                new = port_c.sent[mark:]
+                if not new and not maps[m].get("enabled", True):
+                    feats.add("disabled-not-sent")
+                    compare(tag)
+                elif not data_frame_ok(new, c_cob[m], cur):
+                    bad("transmit-frame", f"{tag}: consumer node sent {new} want {c_cob[m]:X}#{cur.hex()}"
+                                          f"{'x' if c_cob[m] > 0x7FF else ''}")
+                else:
+                    expect_receive(c_cob[m], cur, new[0].ts, src="cons")
+                    compare(tag)
+                    check_values("monitor", mon, mmaps, m_data, m, cur, op.get("via", "pos"), tag)
             elif kind == "raw":
                 fr = Frame(op["id"], bytes(op["data"]), ts=hub.now())
                 hub.inject(fr)
@@ -253,11 +394,24 @@ def run_case(case) -> Outcome:
             elif kind == "reconfigure":
                 c_cob[m] = op["cob"]
                 cmaps[m].cob_id = op["cob"]
-                if op.get("resubscribe", True):
+                how = op.get("how", "subscribe") if op.get("resubscribe", True) else "none"
+                if how == "save":
+                    # the new COB-ID is written to the device; save() is documented to register the map
+                    cmaps[m].save()
+                    c_data[m] = None           # what the frame buffer holds after save() is not stated
+                    feats.add("reconfigured-by-save")
+                elif how == "subscribe":
                     cmaps[m].subscribe()
-                    if cmaps[m].enabled:
-                        c_subscribed[m].add(op["cob"])
+                if how != "none" and cmaps[m].enabled:
+                    c_subscribed[m].add(op["cob"])
+                    c_last[m] = op["cob"]
                 feats.add("reconfigured")
+                compare(tag)
+            elif kind == "pcob":
+                # the producer's map moves to another COB-ID
+                p_cob[m] = op["cob"]
+                pmaps[m].cob_id = op["cob"]
+                feats.add("producer-reconfigured")
             elif kind == "remap":
                 # the application re-maps the PDO on every node that shares the configuration: clear(), then
                 # the same objects in another order (doc/pdo: "tpdo[n].clear(); add_variable(...)")
@@ -266,8 +420,7 @@ def run_case(case) -> Outcome:
                 for pm in (pmaps[m], cmaps[m], mmaps[m]):
                     pm.clear()
                     for j in order[m]:
-                        e = maps[m]["layout"][j]
-                        pm.add_variable(0x2000 + 16 * m + j, 0, None if e["len"] == rc.width(e["dt"]) else e["len"])
+                        add_entry(pm, m, j, maps[m]["layout"][j])
                 o = 0
                 for j in order[m]:
                     offs[m][j] = o
@@ -276,6 +429,7 @@ def run_case(case) -> Outcome:
                 pF[m] = 0
                 if c_data[m] is not None:
                     c_data[m] = bytes(nbytes[m])
+                c_buf[m] = None
                 if m_data[m] is not None:
                     m_data[m] = bytes(nbytes[m])
                 feats.add("remapped")
@@ -301,13 +455,81 @@ def run_case(case) -> Outcome:
                 new = rport.sent[mark:]
                 should = (maps[m].get("enabled", True) if by_mon else cmaps[m].enabled) and maps[m].get("rtr", True)
                 if should:
-                    if len(new) != 1 or not new[0].remote or new[0].data != b"" or new[0].can_id != rcob:
-                        bad("rtr/frame", f"{tag}: enabled and RTR allowed, frames sent: {new}")
+                    if len(new) != 1 or not new[0].remote or new[0].data != b"" or new[0].can_id != rcob or \
+                            new[0].extended != (rcob > 0x7FF):
+                        bad("rtr/frame", f"{tag}: enabled and RTR allowed, COB-ID {rcob:#x}, frames sent: {new}")
                 elif new:
                     bad("rtr/sent-although-not-allowed", f"{tag}: enabled={cmaps[m].enabled} "
                         f"rtr_allowed={maps[m].get('rtr', True)} but sent {new}")
                 feats.add("rtr")
                 compare(tag)
+            elif kind == "wait" and former_id(m):
+                EX.append(FORMER_ID_EXCLUDED)
+            elif kind == "wait" and op.get("mode") == "single":
+                # 1..3 reader threads are parked in wait_for_reception when exactly ONE frame arrives
+                nw = max(1, min(3, op.get("waiters", 1)))
+                feats.add("wait-single" if c_ts[m] is not None else "wait-single-first-frame")
+                if nw > 1:
+                    feats.add("several-readers")
+                data = bytes(op["data"])[:8]
+                ids_ok = c_cob[m] in c_subscribed[m]
+                tmo = SINGLE_T if ids_ok else 0.05
+                cond = getattr(cmaps[m], "receive_condition", None)
+                res = [None] * nw
+
+                def reader(i):
+                    try:
+                        r = cmaps[m].wait_for_reception(tmo)
+                        res[i] = (True, r, time.monotonic())
+                    except Exception as ex:          # judged below
+                        res[i] = (False, ex, time.monotonic())
+
+                def parked():
+                    w = getattr(cond, "_waiters", None)
+                    return w is not None and len(w) >= nw
+
+                ths = [threading.Thread(target=reader, args=(i,), daemon=True) for i in range(nw)]
+                for th in ths:
+                    th.start()
+                limit = time.monotonic() + (5.0 if ids_ok else 0.03)
+                while not parked() and time.monotonic() < limit and all(th.is_alive() for th in ths):
+                    time.sleep(0.0005)
+                sure = parked()
+                stamps = []
+                fr = Frame(c_cob[m], data, ts=hub.now())
+                stamps.append(fr.ts)
+                hub.inject(fr)
+                t_inj = time.monotonic()
+                while ids_ok and not sure and any(th.is_alive() for th in ths):
+                    # the readers could not be seen parked: re-deliver until they are through (as in the other mode)
+                    time.sleep(0.002)
+                    fr = Frame(c_cob[m], data, ts=hub.now())
+                    stamps.append(fr.ts)
+                    hub.inject(fr)
+                for th in ths:
+                    th.join(tmo + 10)
+                if any(th.is_alive() for th in ths):
+                    bad("wait/never-returned", f"{tag}: wait_for_reception({tmo}) still blocks {tmo + 10} s later")
+                    break
+                for i, (ok, r, t_ret) in enumerate(res):
+                    who = f"reader {i + 1} of {nw}"
+                    if not ok:
+                        bad("wait/raises", f"{tag}: {who}: {type(r).__name__}: {r}")
+                    elif not ids_ok:
+                        if r is not None:
+                            bad("wait/woken-by-foreign-frame", f"{tag}: {who} returned {r!r}")
+                    elif r is None or r not in stamps:
+                        bad("wait/not-woken", f"{tag}: {who} was parked when the frame @ {stamps[0]} arrived, "
+                                              f"returned {r!r}")
+                    elif sure and t_ret - t_inj > SINGLE_T / 2:
+                        bad("wait/not-woken-in-time", f"{tag}: {who} was parked when the only frame arrived but returned "
+                            f"{t_ret - t_inj:.1f} s later (its own time-out is {SINGLE_T} s): not woken by the frame")
+                    if D:
+                        break
+                for ts in stamps:
+                    expect_receive(c_cob[m], data, ts)
+                if not D:
+                    compare(tag)
             elif kind == "wait":
                 feats.add("wait")
                 if op.get("deliver"):
@@ -349,17 +571,24 @@ def run_case(case) -> Outcome:
                         bad("wait/woken-by-foreign-frame", f"{tag}: returned {r!r}")
                     for ts in stamps:
                         expect_receive(c_cob[m], data, ts)
-                    compare(tag)
+                    if not D:
+                        compare(tag)
                 else:
                     r = cmaps[m].wait_for_reception(0.02)
                     if r is not None:
                         bad("wait/returned-without-frame", f"{tag}: returned {r!r} although nothing was delivered")
             else:
                 raise ValueError(kind)
+        except ValueError as ex:
+            if str(ex) == kind:
+                raise
+            bad(f"{kind}/raises", f"{tag}: {type(ex).__name__}: {ex}")
         except Exception as ex:
             bad(f"{kind}/raises", f"{tag}: {type(ex).__name__}: {ex}")
         if D:
             break
+        if EX:
+            return Outcome(excluded=EX[0])
     for (fr, e) in port_c.notify_errors + port_p.notify_errors:
         if not D:
             bad("notify-raises", f"Network.notify raised {type(e).__name__}: {e} for {fr}")
@@ -372,16 +601,21 @@ def run_case(case) -> Outcome:
 def layout_strategy(draw):
     layout = []
     remaining = 64
-    for _ in range(draw(st.integers(1, 6))):
+    for _ in range(draw(st.sampled_from([1, 2, 3, 4, 5, 6, 7, 8, 8]))):
         opts = [(dt, rc.width(dt)) for dt in c05.FULL if rc.width(dt) <= remaining]
         if remaining >= 1:
             opts += [(rc.BOOLEAN, 1), (rc.INTEGER8, None), (rc.UNSIGNED8, None)]
+        if remaining >= 8:
+            opts.append((rc.BOOLEAN, 8))
         if not opts:
             break
         dt, ln = draw(st.sampled_from(opts))
         if ln is None:
             ln = draw(st.integers(1, min(8, remaining)))
         layout.append({"dt": dt, "len": ln})
+        if draw(st.integers(0, 3)) == 0:
+            # member of a record, mapped by its numeric sub-index (C05's domain)
+            layout[-1]["sub"] = draw(st.sampled_from(SUBS))
         remaining -= ln
     return layout
 
@@ -400,7 +634,8 @@ def value_for(draw, e):
     return draw(st.floats(allow_nan=False))
 
 
-COBS = [0x180 + NODE, 0x280 + NODE, 0x380 + NODE, 0x185, 0x7FF, 0x1FF, 0x12345678]
+COBS = [0x180 + NODE, 0x280 + NODE, 0x380 + NODE, 0x185, 0x7FF, 0x1FF, 0x12345678, 0x800]
+VIAS = ["pos", "index", "name", "node_name", "node_map"]
 
 
 @st.composite
@@ -415,24 +650,30 @@ def case_strategy(draw):
     ops = []
     for _ in range(draw(st.integers(1, 16))):
         kind = draw(st.sampled_from(["write", "write", "transmit", "transmit", "raw", "reconfigure", "callback",
-                                     "rtr", "wait", "startstop", "remap"]))
+                                     "rtr", "wait", "startstop", "remap", "cwrite", "ctransmit", "pcob"]))
         m = draw(st.integers(0, nmaps - 1))
-        if kind == "write":
+        if kind in ("write", "cwrite"):
             j = draw(st.integers(0, len(maps[m]["layout"]) - 1))
-            ops.append({"op": "write", "m": m, "j": j, "v": value_for(draw, maps[m]["layout"][j]),
-                        "via": draw(st.sampled_from(["pos", "index", "name", "node_name", "node_map"]))})
-        elif kind == "transmit":
-            ops.append({"op": "transmit", "m": m,
-                        "via": draw(st.sampled_from(["pos", "index", "name", "node_name", "node_map"]))})
+            ops.append({"op": kind, "m": m, "j": j, "v": value_for(draw, maps[m]["layout"][j]),
+                        "via": draw(st.sampled_from(VIAS))})
+        elif kind in ("transmit", "ctransmit"):
+            ops.append({"op": kind, "m": m, "via": draw(st.sampled_from(VIAS))})
         elif kind == "raw":
             ops.append({"op": "raw", "id": draw(st.sampled_from(COBS + [0x80 + NODE, 0x700 + NODE, 0x181])),
                         "data": draw(st.binary(min_size=8, max_size=8))})
         elif kind == "reconfigure":
             ops.append({"op": "reconfigure", "m": m, "cob": draw(st.sampled_from(COBS)),
-                        "resubscribe": draw(st.integers(0, 4)) != 0})
+                        "resubscribe": draw(st.integers(0, 4)) != 0,
+                        "how": draw(st.sampled_from(["subscribe", "subscribe", "save"]))})
+        elif kind == "pcob":
+            ops.append({"op": "pcob", "m": m, "cob": draw(st.sampled_from(COBS))})
         elif kind == "wait":
-            ops.append({"op": "wait", "m": m, "deliver": draw(st.booleans()),
-                        "data": draw(st.binary(min_size=8, max_size=8))})
+            if draw(st.integers(0, 2)) == 0:
+                ops.append({"op": "wait", "m": m, "mode": "single", "waiters": draw(st.sampled_from([1, 1, 2, 3])),
+                            "data": draw(st.binary(min_size=8, max_size=8))})
+            else:
+                ops.append({"op": "wait", "m": m, "deliver": draw(st.booleans()),
+                            "data": draw(st.binary(min_size=8, max_size=8))})
         elif kind == "remap":
             ops.append({"op": "remap", "m": m, "rot": draw(st.integers(0, 7))})
         elif kind == "rtr":
@@ -441,16 +682,19 @@ def case_strategy(draw):
             ops.append({"op": "callback", "m": m, "slow": draw(st.sampled_from([5, 10, 20]))})
         else:
             ops.append({"op": kind, "m": m})
-    return {"maps": maps, "ops": ops, "config": draw(st.sampled_from(["direct", "direct", "from_od", "sdo"]))}
+    return {"maps": maps, "ops": ops, "config": draw(st.sampled_from(["direct", "direct", "from_od", "sdo", "save"]))}
 
 
-def enum_cases():
+CONFIGS = ("direct", "from_od", "sdo", "save")
+
+
+def enum_cases(thorough=False):
     """The four (enabled, rtr_allowed) combinations, and the swap of two maps' COB-IDs."""
     lay = [{"dt": rc.UNSIGNED8, "len": 3}, {"dt": rc.INTEGER8, "len": 5}, {"dt": rc.INTEGER16, "len": 16},
            {"dt": rc.BOOLEAN, "len": 1}, {"dt": rc.REAL32, "len": 32}]
     for en in (True, False):
         for rtr in (True, False):
-          for config in ("direct", "from_od", "sdo"):
+          for config in CONFIGS:
             yield {"maps": [{"cob": 0x186, "layout": lay, "enabled": en, "rtr": rtr},
                             {"cob": 0x286, "layout": lay, "enabled": True, "rtr": True}],
                    "config": config,
@@ -469,7 +713,7 @@ def enum_cases():
                    {"op": "wait", "m": 1, "deliver": False, "data": b""}]}
     # the same objects re-mapped in another order on all three nodes, variables looked up through every route
     # before and after
-    for via in ("pos", "index", "name", "node_name", "node_map"):
+    for via in VIAS:
         for rot in (1, 2, 4):
             w = [{"op": "write", "m": 0, "j": j, "v": v, "via": via} for j, v in ((0, 5), (1, -16), (2, -32768), (3, True))]
             yield {"maps": [{"cob": 0x186, "layout": lay}, {"cob": 0x286, "layout": lay}],
@@ -485,9 +729,77 @@ def enum_cases():
                            {"op": "write", "m": 0, "j": 2, "v": 77}, {"op": "transmit", "m": 0},
                            {"op": "wait", "m": 0, "deliver": True, "data": b"\xff" * 8},
                            {"op": "wait", "m": 1, "deliver": False, "data": b""}]}
+    two = [{"cob": 0x186, "layout": lay}, {"cob": 0x286, "layout": lay}]
+    # "Transmission sends exactly the map's COB-ID": the largest 11-bit id, the smallest and a large 29-bit id,
+    # as data frame and as remote request (from the consumer and from the third node)
+    for cob in (0x7FF, 0x800, 0x7FE, 0x1FFFFFFF, 0x12345678):
+        yield {"maps": [{"cob": cob, "layout": lay}, {"cob": 0x286, "layout": lay}], "config": "direct",
+               "ops": [{"op": "write", "m": 0, "j": 2, "v": 1234}, {"op": "transmit", "m": 0}, {"op": "rtr", "m": 0},
+                       {"op": "rtr", "m": 0, "who": "mon"}, {"op": "pcob", "m": 1, "cob": cob},
+                       {"op": "transmit", "m": 1}, {"op": "reconfigure", "m": 1, "cob": cob}, {"op": "rtr", "m": 1},
+                       {"op": "cwrite", "m": 1, "j": 0, "v": 3}, {"op": "ctransmit", "m": 1}]}
+    # "wakes a waiting reader": the readers are parked, exactly one frame arrives - the first one the map ever
+    # receives, or a later one; one, two or three readers; with and without a callback that blocks
+    d1, d2 = b"\x01\x02\x03\x04\x05\x06\x07\x08", b"\xa5" * 8
+    for first in (True, False):
+        for nw in (1, 2, 3):
+            for slow in ((0, 10) if thorough or nw == 1 else (0,)):
+                pre = [] if first else [{"op": "write", "m": 0, "j": 2, "v": -2}, {"op": "transmit", "m": 0}]
+                cb = [{"op": "callback", "m": 0, "slow": slow}] if slow else []
+                yield {"maps": two, "config": ("direct", "save", "from_od")[nw - 1],
+                       "ops": pre + cb + [{"op": "wait", "m": 0, "mode": "single", "waiters": nw, "data": d1},
+                                          {"op": "wait", "m": 0, "mode": "single", "waiters": nw, "data": d2},
+                                          {"op": "wait", "m": 1, "mode": "single", "waiters": 1, "data": d1},
+                                          {"op": "reconfigure", "m": 1, "cob": 0x386, "resubscribe": False},
+                                          {"op": "wait", "m": 1, "mode": "single", "waiters": nw, "data": d2}]}
+    # the configuration is shared through save() alone (no subscribe() by hand), also after a change of the COB-ID
+    for how in ("save", "subscribe"):
+        for config in CONFIGS:
+            yield {"maps": two, "config": config,
+                   "ops": [{"op": "callback", "m": 0}, {"op": "write", "m": 0, "j": 2, "v": -1234},
+                           {"op": "transmit", "m": 0, "via": "name"},
+                           {"op": "reconfigure", "m": 0, "cob": 0x386, "how": how}, {"op": "transmit", "m": 0},
+                           {"op": "pcob", "m": 0, "cob": 0x386}, {"op": "write", "m": 0, "j": 0, "v": 7},
+                           {"op": "transmit", "m": 0, "via": "index"},
+                           {"op": "reconfigure", "m": 1, "cob": 0x386, "how": how},
+                           {"op": "write", "m": 0, "j": 1, "v": -3}, {"op": "transmit", "m": 0, "via": "node_name"},
+                           {"op": "raw", "id": 0x286, "data": b"\x11\x22\x33\x44\x55\x66\x77\x88"}]}
+    # record members mapped by numeric sub-index (1, 2, 127, 128, 254), 8 objects (positions 0..7), through every
+    # configuration path and lookup route; values on the consumer and on the third node
+    mlay = [{"dt": rc.UNSIGNED8, "len": 3, "sub": 2}, {"dt": rc.INTEGER8, "len": 5, "sub": 254},
+            {"dt": rc.INTEGER16, "len": 16, "sub": 128}, {"dt": rc.BOOLEAN, "len": 1, "sub": 1},
+            {"dt": rc.UNSIGNED8, "len": 7}, {"dt": rc.INTEGER16, "len": 16, "sub": 127},
+            {"dt": rc.UNSIGNED8, "len": 8, "sub": 254}, {"dt": rc.INTEGER8, "len": 8}]
+    vals = (5, -16, -2, True, 100, -32768, 255, -128)
+    for config in CONFIGS:
+        for via in VIAS:
+            w = [{"op": "write", "m": 0, "j": j, "v": v, "via": via} for j, v in enumerate(vals)]
+            yield {"maps": [{"cob": 0x186, "layout": mlay}, {"cob": 0x286, "layout": lay}], "config": config,
+                   "ops": w + [{"op": "transmit", "m": 0, "via": via}, {"op": "write", "m": 1, "j": 1, "v": -16},
+                               {"op": "transmit", "m": 1, "via": via}, {"op": "remap", "m": 0, "rot": 3}] + w[::-1] +
+                          [{"op": "transmit", "m": 0, "via": via}]}
+    # the two sides take turns on the shared configuration: a map that has received is written and transmitted
+    # by its own node, the third node reads; then the first producer again
+    for config in CONFIGS:
+        for via in (VIAS if thorough else VIAS[:1] + VIAS[2:4]):
+            yield {"maps": two, "config": config,
+                   "ops": [{"op": "write", "m": 0, "j": 2, "v": -3, "via": via}, {"op": "write", "m": 0, "j": 1, "v": 7},
+                           {"op": "transmit", "m": 0, "via": via},
+                           {"op": "cwrite", "m": 0, "j": 2, "v": 1000, "via": via},
+                           {"op": "cwrite", "m": 0, "j": 0, "v": 1, "via": via}, {"op": "ctransmit", "m": 0, "via": via},
+                           {"op": "write", "m": 0, "j": 2, "v": -32768, "via": via}, {"op": "transmit", "m": 0, "via": via},
+                           {"op": "cwrite", "m": 0, "j": 4, "v": 1.5, "via": via}, {"op": "ctransmit", "m": 0, "via": via},
+                           {"op": "raw", "id": 0x286, "data": b"\x11\x22\x33\x44\x55\x66\x77\x88"},
+                           {"op": "cwrite", "m": 1, "j": 3, "v": False, "via": via},
+                           {"op": "ctransmit", "m": 1, "via": via},
+                           {"op": "wait", "m": 1, "deliver": True, "data": d2},
+                           {"op": "cwrite", "m": 1, "j": 1, "v": -1, "via": via},
+                           {"op": "ctransmit", "m": 1, "via": via}]}
 
 
 def search(ctx):
     thorough = ctx.tier == "thorough"
-    ctx.enumerate(enum_cases(), "enabled x rtr_allowed combinations; COB-ID swap of two maps")
+    ctx.enumerate(enum_cases(thorough), "enabled x rtr_allowed combinations x configuration path; COB-ID swap of two maps; "
+                  "11/29-bit boundary ids; parked readers x first/later frame; save() as the subscribing step; record "
+                  "members x configuration path x lookup route; the two sides taking turns")
     ctx.hypothesis(case_strategy(), 8000 if thorough else 1200)
